@@ -274,7 +274,9 @@ RECIPES = {
         runs=[dict(cmd="frames", opts={"cases": "6000"}, opts_thorough={"sweep": True}),
               # the entry codec: encodings of generated entries must decode to what was encoded (Codec.tla)
               dict(cmd="codec", opts={"cases": "300"}, opts_thorough={"cases": "3000"}),
-              dict(cmd="run", gen="aim-block:60,boundary:40,big:10", policy="always_flush", monitors={"C01", "C05", "C15"})],
+              # (do_nothing: entries wait in the BufWriter while the next ones are laid out - padding, seeks and
+              # roll-overs then happen with unflushed frames pending)
+              dict(cmd="run", gen="aim-block:60,boundary:40,big:10", policy="always_flush,do_nothing", monitors={"C01", "C05", "C15"})],
         rule="record layer in memory: the real RecordWriter over a logging block writer and the real RecordReader, start "
              "cursors at every boundary class (thorough: all 32768 in-block offsets) x 1-3 entry lengths chosen relative to "
              "the cursor (0, 1, fills the frame exactly, +-1, one and two more blocks, > 1 file, ~300 KB): layout compared "
